@@ -6,7 +6,7 @@ package vm
 
 //@ function bal(b map[machine.AccountAddress]map[machine.Asset]*machine.MonetaryInt, a machine.AccountAddress, x machine.Asset) int = val(b[a][x])
 //@ function tracked(b map[machine.AccountAddress]map[machine.Asset]*machine.MonetaryInt, a machine.AccountAddress, x machine.Asset) bool = has(b, a) && has(b[a], x)
-//@ define wfBal(b map[machine.AccountAddress]map[machine.Asset]*machine.MonetaryInt) bool = (forall a machine.AccountAddress :: {has(b, a)} has(b, a) ==> b[a] != nil) && (forall a machine.AccountAddress, x machine.Asset :: {b[a][x]} (has(b, a) && has(b[a], x)) ==> b[a][x] != nil)
+//@ define wfBal(b map[machine.AccountAddress]map[machine.Asset]*machine.MonetaryInt) bool = (forall a machine.AccountAddress :: {has(b, a)} has(b, a) ==> b[a] != nil) && (forall a machine.AccountAddress, x machine.Asset :: {has(b[a], x), b[a][x]} (has(b, a) && has(b[a], x)) ==> b[a][x] != nil)
 //@ define sameKeys(b map[machine.AccountAddress]map[machine.Asset]*machine.MonetaryInt, c map[machine.AccountAddress]map[machine.Asset]*machine.MonetaryInt) bool = forall a machine.AccountAddress, x machine.Asset :: {tracked(b, a, x)} {tracked(c, a, x)} tracked(b, a, x) == tracked(c, a, x)
 
 //@ func (m *Machine) withdrawAll(account machine.AccountAddress, asset machine.Asset, overdraft *machine.MonetaryInt) (f *machine.Funding, err error)
@@ -87,6 +87,8 @@ package vm
 //@ define wfStack(st []machine.Value) bool = forall i int :: {st[i]} 0 <= i && i < len(st) ==> wfValue(st[i])
 //@ sumfold fsum(fs []machine.Funding, a machine.AccountAddress, x machine.Asset) = e.Asset == x ? sumBy(e.Parts, a) : 0
 //@ function netD(st []machine.Value, ps []Posting, a machine.AccountAddress, x machine.Asset) int = vcred(ps, a, x) - vdeb(ps, a, x) - infl(st, a, x)
+//@ define nnPostings(ps []Posting) bool = forall i int :: {ps[i]} 0 <= i && i < len(ps) ==> ps[i].Amount != nil && val(ps[i].Amount) >= 0
+//@ define dropsFunding(st []machine.Value, op byte) bool = ((op == program.OP_PRINT || op == program.OP_ASSET) && is(st[len(st) - 1], machine.Funding)) || (op == program.OP_TX_META && is(st[len(st) - 2], machine.Funding)) || (op == program.OP_ACCOUNT_META && is(st[len(st) - 3], machine.Funding))
 //@ ghost initBal arr[machine.AccountAddress]arr[machine.Asset]int
 //@ define J1(b map[machine.AccountAddress]map[machine.Asset]*machine.MonetaryInt, st []machine.Value, ps []Posting, ib arr[machine.AccountAddress]arr[machine.Asset]int) bool = forall a machine.AccountAddress, x machine.Asset :: {bal(b, a, x)} {netD(st, ps, a, x)} tracked(b, a, x) ==> bal(b, a, x) <= ib[a][x] + netD(st, ps, a, x)
 
@@ -125,23 +127,45 @@ package vm
 //@   requires m.Program.Instructions[m.P] == program.OP_SAVE ==> len(m.Stack) > 1 && (is(m.Stack[len(m.Stack) - 2], machine.Asset) || (is(m.Stack[len(m.Stack) - 2], machine.Monetary) && val(m.Stack[len(m.Stack) - 2].(machine.Monetary).Amount) >= 0))
 //@   requires wfBal(m.Balances) && wfStack(m.Stack) && m.TxMeta != nil && m.AccountsMeta != nil
 //@   requires forall i int :: {m.Resources[i]} 0 <= i && i < len(m.Resources) ==> wfValue(m.Resources[i]) && !is(m.Resources[i], machine.Funding)
+//@   requires nnPostings(m.Postings)
 //@   modifies m
 //@   ensures err == nil ==> wfBal(m.Balances) && wfStack(m.Stack) && m.TxMeta != nil && m.AccountsMeta != nil
+//@   ensures err == nil ==> nnPostings(m.Postings)
+//@   ensures err == nil ==> forall a machine.AccountAddress, x machine.Asset :: {tracked(m.Balances, a, x)} {tracked(old(m.Balances), a, x)} tracked(old(m.Balances), a, x) ==> tracked(m.Balances, a, x)
+//@   ensures err == nil && old(m.Program.Instructions[m.P]) != program.OP_SEND ==> m.Postings == old(m.Postings)
+//@   ensures err == nil && old(m.Program.Instructions[m.P]) == program.OP_SEND ==> len(m.Postings) == len(old(m.Postings)) + len(old(m.Stack)[len(old(m.Stack)) - 2].(machine.Funding).Parts)
+//@   ensures err == nil && old(m.Program.Instructions[m.P]) == program.OP_SEND ==> forall k int :: {m.Postings[k]} 0 <= k && k < len(old(m.Postings)) ==> m.Postings[k] == old(m.Postings)[k]
+//@   ensures err == nil && old(m.Program.Instructions[m.P]) == program.OP_SEND ==> forall k int :: {m.Postings[k]} len(old(m.Postings)) <= k && k < len(m.Postings) ==> m.Postings[k].Source == old(m.Stack)[len(old(m.Stack)) - 2].(machine.Funding).Parts[k - len(old(m.Postings))].Account && m.Postings[k].Destination == old(m.Stack)[len(old(m.Stack)) - 1].(machine.AccountAddress) && m.Postings[k].Asset == old(m.Stack)[len(old(m.Stack)) - 2].(machine.Funding).Asset && m.Postings[k].Amount == old(m.Stack)[len(old(m.Stack)) - 2].(machine.Funding).Parts[k - len(old(m.Postings))].Amount
+//@   ensures err == nil ==> forall a machine.AccountAddress, x machine.Asset :: {netD(m.Stack, m.Postings, a, x)} {netD(old(m.Stack), old(m.Postings), a, x)} tracked(old(m.Balances), a, x) ==> bal(m.Balances, a, x) - bal(old(m.Balances), a, x) <= netD(m.Stack, m.Postings, a, x) - netD(old(m.Stack), old(m.Postings), a, x)
+//@   ensures err == nil && old(m.Program.Instructions[m.P]) != program.OP_TAKE_ALL && old(m.Program.Instructions[m.P]) != program.OP_TAKE_ALWAYS ==> forall a machine.AccountAddress, x machine.Asset :: {netD(m.Stack, m.Postings, a, x)} {netD(old(m.Stack), old(m.Postings), a, x)} netD(m.Stack, m.Postings, a, x) >= netD(old(m.Stack), old(m.Postings), a, x)
+//@   ensures err == nil && old(m.Program.Instructions[m.P]) == program.OP_TAKE_ALL ==> forall a machine.AccountAddress, x machine.Asset :: {netD(m.Stack, m.Postings, a, x)} {netD(old(m.Stack), old(m.Postings), a, x)} netD(m.Stack, m.Postings, a, x) == netD(old(m.Stack), old(m.Postings), a, x) - ((a == old(m.Stack)[len(old(m.Stack)) - 2].(machine.AccountAddress) && x == old(m.Stack)[len(old(m.Stack)) - 1].(machine.Monetary).Asset) ? max(0, bal(old(m.Balances), a, x) + val(old(m.Stack)[len(old(m.Stack)) - 1].(machine.Monetary).Amount)) : 0)
+//@   ensures err == nil && old(m.Program.Instructions[m.P]) == program.OP_TAKE_ALWAYS ==> forall a machine.AccountAddress, x machine.Asset :: {netD(m.Stack, m.Postings, a, x)} {netD(old(m.Stack), old(m.Postings), a, x)} netD(m.Stack, m.Postings, a, x) == netD(old(m.Stack), old(m.Postings), a, x) - ((a == old(m.Stack)[len(old(m.Stack)) - 2].(machine.AccountAddress) && x == old(m.Stack)[len(old(m.Stack)) - 1].(machine.Monetary).Asset) ? val(old(m.Stack)[len(old(m.Stack)) - 1].(machine.Monetary).Amount) : 0)
+//@   ensures err == nil && old(m.Program.Instructions[m.P]) == program.OP_SAVE ==> forall a machine.AccountAddress, x machine.Asset :: {netD(m.Stack, m.Postings, a, x)} {netD(old(m.Stack), old(m.Postings), a, x)} netD(m.Stack, m.Postings, a, x) == netD(old(m.Stack), old(m.Postings), a, x)
+//@   ensures err == nil && old(m.Program.Instructions[m.P]) != program.OP_SAVE && !dropsFunding(old(m.Stack), old(m.Program.Instructions[m.P])) ==> forall a machine.AccountAddress, x machine.Asset :: {netD(m.Stack, m.Postings, a, x)} {netD(old(m.Stack), old(m.Postings), a, x)} (tracked(old(m.Balances), a, x) && a != "world") ==> bal(m.Balances, a, x) - bal(old(m.Balances), a, x) == netD(m.Stack, m.Postings, a, x) - netD(old(m.Stack), old(m.Postings), a, x)
 //@   ensures err == nil ==> m.P > old(m.P) && m.Program == old(m.Program) && m.Resources == old(m.Resources)
 //@   ensures err == nil && !finished ==> m.P < len(m.Program.Instructions)
 //@   loop 1:
 //@     invariant unchangedExcept(m, old(m), Stack) && wfStack(m.Stack) && len(portions) == val(n) && i <= val(n)
 //@     invariant forall j int :: {portions[j]} 0 <= j && j < i ==> true
+//@     invariant forall a machine.AccountAddress, x machine.Asset :: {infl(m.Stack, a, x)} {infl(old(m.Stack), a, x)} infl(m.Stack, a, x) == infl(old(m.Stack), a, x)
 //@   loop 2:
 //@     invariant unchangedExcept(m, old(m), Stack) && wfStack(m.Stack) && 1 <= i && i <= n && len(fundings_rev) == n
 //@     invariant forall j int :: {fundings_rev[j]} 0 <= j && j < i ==> wfParts(fundings_rev[j].Parts) && fundings_rev[j].Asset == result.Asset
 //@     invariant len(result.Parts) == 0
+//@     invariant forall a machine.AccountAddress, x machine.Asset :: {infl(m.Stack, a, x)} {infl(old(m.Stack), a, x)} infl(m.Stack, a, x) + fsum_upto(fundings_rev, i, a, x) == infl(old(m.Stack), a, x)
 //@   loop 3:
 //@     invariant unchangedExcept(m, old(m), Stack) && wfStack(m.Stack) && 0 <= i && i <= n && len(fundings_rev) == n && wfParts(result.Parts)
 //@     invariant forall j int :: {fundings_rev[j]} 0 <= j && j < n ==> wfParts(fundings_rev[j].Parts) && fundings_rev[j].Asset == result.Asset
+//@     invariant forall a machine.AccountAddress, x machine.Asset :: {infl(m.Stack, a, x)} {infl(old(m.Stack), a, x)} infl(m.Stack, a, x) + fsum(fundings_rev, a, x) == infl(old(m.Stack), a, x)
+//@     invariant forall a machine.AccountAddress, x machine.Asset :: {fsum(fundings_rev, a, x)} (x == result.Asset ? sumBy(result.Parts, a) : 0) == fsum(fundings_rev, a, x) - fsum_upto(fundings_rev, n - i, a, x)
 //@   loop 4:
 //@     invariant unchangedExcept(m, old(m), Stack) && wfStack(m.Stack) && 0 - 1 <= i && i < len(parts)
 //@     invariant forall j int :: {parts[j]} 0 <= j && j < len(parts) ==> parts[j] != nil
+//@     invariant forall a machine.AccountAddress, x machine.Asset :: {infl(m.Stack, a, x)} {infl(old(m.Stack), a, x)} infl(m.Stack, a, x) == infl(old(m.Stack), a, x)
 //@   loop 5:
 //@     index k
-//@     invariant unchangedExcept(m, old(m), Stack, Postings, Balances) && wfStack(m.Stack) && wfBal(m.Balances)
+//@     invariant nnPostings(m.Postings) && len(m.Postings) == len(old(m.Postings)) + k
+//@     invariant forall a machine.AccountAddress, x machine.Asset :: {vdeb(m.Postings, a, x)} vdeb(m.Postings, a, x) == vdeb(old(m.Postings), a, x) + (x == funding.Asset ? sumBy_upto(funding.Parts, k, a) : 0)
+//@     invariant forall a machine.AccountAddress, x machine.Asset :: {vcred(m.Postings, a, x)} vcred(m.Postings, a, x) == vcred(old(m.Postings), a, x) + ((a == dest && x == funding.Asset) ? total_upto(funding.Parts, k) : 0)
+//@     invariant forall j int :: {m.Postings[j]} 0 <= j && j < len(old(m.Postings)) ==> m.Postings[j] == old(m.Postings)[j]
+//@     invariant forall j int :: {m.Postings[j]} len(old(m.Postings)) <= j && j < len(old(m.Postings)) + k ==> m.Postings[j].Source == funding.Parts[j - len(old(m.Postings))].Account && m.Postings[j].Destination == dest && m.Postings[j].Asset == funding.Asset && m.Postings[j].Amount == funding.Parts[j - len(old(m.Postings))].Amount
